@@ -76,6 +76,19 @@ Proof. exact back_scan_fixed_in_bounds. Qed.
 Print Assumptions C09_option_line_in_bounds_partial.
 (* partial: the forward scans (strchr, leading blanks) of the walk are not covered *)
 
+(* the WHOLE walk of mps_parse_option_line (strchr '!', leading blanks, strchr ';', backward
+   scan, the write of the terminator, the read of the option text) on a line that has a
+   ';' before its terminator -- the only way mps_parse_abstract_stream calls it: either the
+   "line too long" error, or every access is inside the buffer and the only write is one NUL *)
+Theorem C09_option_line_walk_in_bounds :
+  forall m t j fuel len,
+    0 <= j -> j < t -> t < cap m -> get m t = 0 -> get m j = 59 ->
+    (forall i, 0 <= i < j -> get m i <> 0) -> t < Z.of_nat fuel ->
+    option_walk_fixed fuel m len = Done WTooLong \/
+    exists opt o q tr, option_walk_fixed fuel m len = Done (WOption opt o (upd m q 0) tr) /\ in_bounds (cap m) tr.
+Proof. exact option_walk_fixed_safe. Qed.
+Print Assumptions C09_option_line_walk_in_bounds.
+
 Example C09_option_line_nonvacuous :
   parse_option_line_fixed 400 (str "  Degree = 5 ;") (fun _ => garbage)
   = Done (OOpt FDegree (Some (str " 5")) None false)
@@ -246,7 +259,29 @@ Theorem C09_whole_file_no_undefined_behaviour_partial :
 Proof. exact whole_file_no_ub. Qed.
 Print Assumptions C09_whole_file_no_undefined_behaviour_partial.
 
+(* the hypothesis of the partial theorem is satisfiable by a reader that still accepts
+   ordinary rationals: GMP's own grammar restricted to positive denominators and non-zero
+   numerators *)
+Definition gmpq_tame (t : list Z) : option (Z * Z) :=
+  match gmpq621 t with
+  | Some (n, d) => if (0 <? d) && negb (n =? 0) then Some (n, d) else None
+  | None => None
+  end.
+
 Definition nl : list Z := [10].
+
+Example C09_whole_file_no_undefined_behaviour_nonvacuous :
+  (forall t n d, gmpq_tame t = Some (n, d) -> 0 < d /\ n <> 0)
+  /\ gmpq_tame (str "-3/4") = Some (-3, 4)
+  /\ (exists b, let i := str "Chebyshev;" ++ nl ++ str "Degree=1;" ++ nl ++ str "Rational;" ++ nl ++ str "Sparse;" ++ nl ++ str "Real;" ++ nl ++ str "1 -3/4" in
+                 parse_string gmpf621 gmpq_tame true (budget_of i) i
+                 = SOk {| p_type := 2; p_deg := 1; p_cplx := false; p_kind := KRat; p_dens := 1; p_prec := 0 |} b).
+Proof.
+  split.
+  - intros t n d H. unfold gmpq_tame in H. destruct (gmpq621 t) as [[n' d']|]; [|discriminate].
+    destruct ((0 <? d') && negb (n' =? 0)) eqn:E; [|discriminate]. inversion H; subst. lia.
+  - split; [vm_compute; reflexivity|]. vm_compute. eexists. reflexivity.
+Qed.
 
 (* non-vacuity: a 3.x file, a legacy file and two malformed files through the model with
    the GMP 6.2.1 transcription *)
